@@ -234,6 +234,27 @@ def r_chain(E):
     t = norm(fn)
     uses_obj = "attr_updates_chain_from_mod_objs_computation_chains" in t
     uses_val = any(isinstance(n, ast.Attribute) and n.attr == "attr_updates_chain" for n in ast.walk(fn))
+    # … for every edited value: the collection of the edited values' chains is not filtered
+    from ..astutil import enorm as _en
+    filt = None
+    for n in ast.walk(fn):
+        if isinstance(n, (ast.ListComp, ast.GeneratorExp)) and any(
+                isinstance(x, ast.Attribute) and x.attr == "attr_updates_chain" for x in ast.walk(n.elt)):
+            for g in n.generators:
+                if g.ifs:
+                    filt = g.ifs[0]
+        if isinstance(n, ast.For) and any(isinstance(x, ast.Attribute) and x.attr == "attr_updates_chain" for x in ast.walk(n)):
+            for i in ast.walk(n):
+                if isinstance(i, ast.If) and any(isinstance(x, ast.Attribute) and x.attr == "attr_updates_chain"
+                                                 for x in ast.walk(i)):
+                    filt = i.test
+    if filt is not None:
+        res.findings.append(Finding(
+            "R-CHAIN", "generate_optimized_attr_updates_chain filters the edited values",
+            f"the descendants of an edited value are left out of the recomputation when `{norm(filt)[:80]}`: the value is "
+            f"replaced by a new object all the same, so what was computed from the old one keeps pointing at a detached "
+            f"value (explanations show the old input; later edits of the new one recompute nothing)", rel, filt.lineno,
+            fn.name))
     if not (uses_obj and uses_val):
         res.findings.append(Finding(
             "R-CHAIN", "generate_optimized_attr_updates_chain sources",
@@ -1531,6 +1552,43 @@ def r_attach(E):
                     f"{q} only detaches the previous value when `{norm(t)[:80]}`: a previous value of the excluded kind "
                     f"(an empty result that has ancestors) stays registered as child of its ancestors after it was "
                     f"replaced, and the replacement is refused as a duplicate", rel, g.lineno, q))
+    # every implementation of the replace primitive (the base one and its overrides): each path that does not raise
+    # either delegates to super() or detaches the replaced value and attaches the new one *after* that (an attach that
+    # only happens before the detach — through dict.__setitem__ — is undone by the detach: both values share one id)
+    from ..paths import enumerate_paths as _ep
+    from ..astutil import source_order as _so
+    for cn in sorted(pm.classes):
+        f = next((m for m in pm.own_methods(cn) if m.name == "replace_in_mod_obj_container_without_recomputation"), None)
+        if f is None:
+            continue
+        res.instances += 1
+        newp = f.args.args[1].arg if len(f.args.args) > 1 else "new_value"
+        is_smc = lambda c: isinstance(c, ast.Call) and isinstance(c.func, ast.Attribute) and c.func.attr in (
+            "set_modeling_obj_container", "replace_in_mod_obj_container_without_recomputation")
+        rank = _so(f)
+        from ..astutil import names_behind
+        for path in _ep(f, is_smc):
+            if path.end == "raise":
+                continue
+            calls = sorted([c for c in path.calls() if is_smc(c)], key=lambda c: rank.get(id(c), 0))
+            if any(c.func.attr == "replace_in_mod_obj_container_without_recomputation" and norm(c.func.value) == "super()"
+                   for c in calls):
+                continue
+            dets = [c for c in calls if c.func.attr == "set_modeling_obj_container" and [norm(a) for a in c.args] == ["None", "None"]
+                    and norm(c.func.value) == f.args.args[0].arg]
+            atts = [c for c in calls if c.func.attr == "set_modeling_obj_container" and len(c.args) + len(c.keywords) == 2
+                    and [norm(a) for a in c.args] != ["None", "None"]
+                    and newp in names_behind(c.func.value, f)]
+            if not dets or not any(rank[id(a)] > rank[id(dets[-1])] for a in atts):
+                cond = " and ".join(("" if pol else "not ") + "(" + norm(t)[:50] + ")" for t, pol in path.conds)
+                res.findings.append(Finding(
+                    "R-ATTACH", f"{cn}.replace_in_mod_obj_container_without_recomputation path without re-attach",
+                    f"{cn}.replace_in_mod_obj_container_without_recomputation has a path (`{cond[:140]}`) that does not end "
+                    f"with the new value being attached after the replaced one was detached: old and new value share one "
+                    f"id, so the detach removes the new value's registration on the common ancestors and nothing puts it "
+                    f"back — edits of those ancestors no longer reach it", pm.path_of(cn), f.lineno,
+                    f"{cn}.replace_in_mod_obj_container_without_recomputation"))
+                break
     # the attach primitive itself: every path that attaches (new container not None) registers the value on each of
     # its direct ancestors, every path that had a container deregisters first — no early exit in between (the
     # replace primitive relies on the second, seemingly redundant, attach to re-register a dict entry whose twin with
